@@ -21,7 +21,7 @@ The raw socket is the queue of `RecvItem`s of Paho.Model.Reader (`recvN`): `eof`
 both are `ConnectionError`s, caught by `_recv_impl` (returns b'' and sets `connected = False`).
 Core Lean only.
 -/
-import Paho.Model.Reader
+import Paho.Model.Transport
 namespace Paho.Ws
 open Paho
 
